@@ -1,7 +1,7 @@
 """All contracts, by name."""
-from . import symbolic_nodes, negation
+from . import symbolic_nodes, negation, quantifiers
 
-MODULES = [symbolic_nodes, negation]
+MODULES = [symbolic_nodes, negation, quantifiers]
 
 
 def all_contracts():
